@@ -89,7 +89,7 @@ TRACES['l2'] = dict(driver='l2-drive', module='Trace_L2', mod='l2', runs=dict(qu
                     inv_tags=dict(SupplyMatchesBalances=['C09', 'C07'], NoStray=['C09', 'C07'], SeqL1Step=['C06'], SeqL2Step=['C09', 'C07'], PairImmutable=['C09'], NoEffectOnReject=['C06', 'C07', 'C09']))
 TRACES['val'] = dict(driver='val-drive', module='Trace_Val', mod='val', runs=dict(quick=10, thorough=120), length=dict(quick=250, thorough=500), timeout=dict(quick=300, thorough=3000),
                      inv_tags=dict(Halted=['C13'], BatchRejectedByEngine=['C13'], IndexBijective=['C13'], Capacity=['C13'], EngineAgrees=['C13']))
-TRACES['br'] = dict(driver='bridge-drive', module='Trace_Bridge', mod='br', runs=dict(quick=9, thorough=90), length=dict(quick=200, thorough=400), timeout=dict(quick=400, thorough=3600),
+TRACES['br'] = dict(driver='bridge-drive', module='Trace_Bridge', mod='br', runs=dict(quick=9, thorough=40), length=dict(quick=200, thorough=250), timeout=dict(quick=400, thorough=3600),
                     inv_tags=dict(Solvency=['C08'], Holdings=['C08'], NoStuckTransfer=['C04'], Completeness=['C04', 'C08'], DrainedAfterCanonicalSchedule=['C08', 'C04']))
 
 # property -> engines.  `floor`: minimum counts below which the run is considered vacuous (exit 2).
